@@ -147,8 +147,55 @@ def all_sites(files):
     return out
 
 
+def recheck(out):
+    """Re-runs the registered quick checks against the test-surviving mutants no check caught when the sweep ran (the checks have been
+    strengthened since).  A mutant is located again by the text of its source line (the line numbers move when /repo gets a fix commit)."""
+    results = json.loads(out.read_text())
+    for rec in results["mutants"]:
+        if rec["tests"] != "pass" or rec.get("caught_by"):
+            continue
+        f = rec["file"]
+        lines = (Path("/repo/src/cfdppy") / f).read_text().splitlines()
+        cands = [i + 1 for i, l in enumerate(lines) if l.strip() == rec["source_line"]]
+        if not cands:
+            rec["recheck"] = "source line no longer present"
+            continue
+        line = min(cands, key=lambda x: abs(x - rec["line"]))
+        site = (rec["id"][1], line, rec["id"][3], json.loads(rec["id"][4]))
+        d = Path(tempfile.mkdtemp(prefix="cfdp-am-", dir="/tmp"))
+        try:
+            subprocess.run(f"cp -r /repo/src {d}/src", shell=True, check=True)
+            p = d / "src" / "cfdppy" / f
+            tree = ast.parse(p.read_text())
+            ap = Applier(site)
+            tree = ap.visit(tree)
+            if not ap.done:
+                rec["recheck"] = "site not found again"
+                continue
+            ast.fix_missing_locations(tree)
+            p.write_text(ast.unparse(tree) + "\n")
+            rec["recheck"] = "still uncaught"
+            for prop in ORDER:
+                env = dict(os.environ, CFDPMON_REPO=str(d), CFDPMON_EVIDENCE_DIR=str(d / "ev"), CFDPMON_REPLAY_DIR=str(d / "rp"), CFDPMON_WORK_DIR=str(d / "wk"))
+                try:
+                    rc = subprocess.run(["/venv/bin/python", str(VERIF / "check.py"), prop, "--tier", "quick"], env=env, capture_output=True, text=True, timeout=900)
+                except subprocess.TimeoutExpired:
+                    continue
+                if rc.returncode == 1 and f"VIOLATION property={prop}" in rc.stdout:
+                    rec["recheck"] = "caught by " + prop
+                    rec["recheck_witness"] = next((l for l in rc.stdout.splitlines() if l.startswith("violation:")), "")[:300]
+                    break
+            print(f"{f}:{line} {rec['kind']:<9} {rec['recheck']}  | {rec['source_line'][:90]}", flush=True)
+            out.write_text(json.dumps(results, indent=1))
+        finally:
+            shutil.rmtree(d, ignore_errors=True)
+
+
 def main():
     a = sys.argv[1:]
+    if "--recheck" in a:
+        opts = {a[i]: a[i + 1] for i in range(len(a) - 1) if a[i].startswith("--")}
+        return recheck(Path(opts.get("--out", VERIF / "mutants" / "auto-results.json")))
     opts = {a[i]: a[i + 1] for i in range(len(a) - 1) if a[i].startswith("--")}
     files = opts.get("--files", ",".join(FILES)).split(",")
     n = int(opts.get("--sample", "50"))
